@@ -650,7 +650,7 @@ HEX_PITCH = 16.75
 CART_PITCH = 10.0
 # materials whose nuclides are all covered by armi's default nuclide flags (no `nuclide flags` section is generated)
 SOLIDS = ["HT9", "Zr", "Graphite", "Uranium"]
-FLUIDS = ["Sodium", "Void", "Potassium"]
+FLUIDS = ["Sodium", "Void", "Sodium"]  # third slot was Potassium while that material had no composition (fixed defect F183): K is not in the default nuclide flags
 
 
 def f4(x):
